@@ -310,6 +310,7 @@ struct Agg {
     scenarios: BTreeMap<String, u64>,
     pairs_sum: u64,
     kernel_async: u64,
+    kernel_nondet: u64,
     alloc_modes: BTreeMap<String, u64>,
     samples: Vec<J>,
     bad: Vec<RunOut>,
@@ -326,7 +327,15 @@ impl Agg {
         *self.scenarios.entry(r.scenario.clone()).or_default() += 1;
         self.child_ms += r.wall_ms;
         let j = &r.j;
-        self.log.push((r.scenario.clone(), r.seed, j.str("hash").to_string(), r.verdict.clone()));
+        // runs over loopback TCP / UDP are not bit-for-bit repeatable under CPU load (softirq
+        // delivery): their logs are kept out of the hash comparison, their verdicts are compared
+        let h = if j.get("kernel_nondet").map(|v| v.to_string() == "true").unwrap_or(false) {
+            self.kernel_nondet += 1;
+            "kernel-nondet".to_string()
+        } else {
+            j.str("hash").to_string()
+        };
+        self.log.push((r.scenario.clone(), r.seed, h, r.verdict.clone()));
         self.steps += j.u64("steps");
         self.switches += j.u64("switches");
         self.vt_ns += j.u64("vt_ns");
@@ -633,6 +642,7 @@ fn check_property(p: &Prop, tier: &str, runs_override: Option<u64>, only_scenari
         ("switch_site_pairs_sum", nu(agg.pairs_sum)),
         ("sim_time_total_ns", nu(agg.vt_ns)),
         ("kernel_async", nu(agg.kernel_async)),
+        ("kernel_nondet_runs", nu(agg.kernel_nondet)),
         ("allocator_modes", to_obj(&agg.alloc_modes)),
         ("runs_per_hour", nu((agg.runs as f64 / wall.max(0.001) * 3600.0) as u64)),
         ("seeds", obj(vec![("base", nu(base)), ("first", nu(seed_of(base, 0))), ("count_per_scenario", nu(total_runs / scen.len().max(1) as u64))])),
